@@ -11,7 +11,9 @@ tied to the code by exact differential execution (`harness/c17.py`).
 Quantification: every assignment of particles to cells / keys / octants
 (with the range condition the geometry guarantees, stated per theorem), every
 number of particles, every particle array (any number of properties, any
-strides, any tags), every index permutation, every history of re-orderings.
+strides, any tags), every index permutation, every history of re-orderings,
+also with arbitrary edits of the array (particles / properties added and
+removed) between them.
 
 `spatiallyOrderOrig` is the code of the pinned tree, `spatiallyOrder` the
 repaired code (proposed_fixes/C17-reorder-align.diff).
@@ -217,6 +219,81 @@ theorem repeated_reordering (idxs : List (List Nat)) (pa : PA) (hwf : pa.wf = tr
 example : (reorderHistory [[1, 0, 2], [2, 1, 0]]
     { props := [⟨"tag", 1, [0, 0, 2]⟩, ⟨"A", 2, [1, 2, 3, 4, 5, 6]⟩], nReal := 2 }) =
     { props := [⟨"tag", 1, [0, 0, 2]⟩, ⟨"A", 2, [1, 2, 3, 4, 5, 6]⟩], nReal := 2 } := by decide
+
+/-! ## histories on ONE search structure: the arrays are edited between the re-orderings
+
+`spatiallyOrder idx pa` reads the array as it is when the re-order runs:
+`pa.props` are the properties it has *then* (also those added after the search
+structure was made), `pa.n` the particle count it has *then*.  So
+`reorder_preserves_particles` / `reorder_moves_whole_particles` /
+`real_first_after_reorder`, which quantify over every `pa`, already cover a
+re-order after any edit; there is no NNPS-object state in the model in which a
+property list or a count of construction time could survive (the code has
+such state: `NNPSParticleArrayWrapper` — that the code does not *use* it in
+the re-order is what the harness's edit histories test, seeds A2/B2).
+`history_with_edits` spells the consequence out. -/
+
+/-- the gather visits exactly the properties the array has at the time of the
+re-order, in their order -/
+theorem reorder_gathers_current_properties (idx : List Nat) (pa : PA) :
+    (spatiallyOrder idx pa).names = pa.names := names_fixed idx pa
+
+/-- any life of an array — re-orders interleaved with arbitrary edits
+(`add_particles`, `remove_particles`, ghosts made by a domain manager,
+`add_property`, `ensure_properties`, `remove_property`, motion; anything that
+leaves a well-formed array), each re-order using a permutation of the slots
+the array has at that time: **every** re-order keeps the multiset of whole
+particles over the properties the array has then, the property list, the
+count, and leaves the real particles first. -/
+theorem history_with_edits (evs : List Event) (pa : PA) (hwf : pa.wf = true)
+    (h : Admissible pa evs) : EveryReorderGood pa evs :=
+  (everyReorderGood_of_admissible evs pa hwf h).1
+
+def histPA : PA :=
+  { props := [⟨"tag", 1, [0, 2, 0]⟩, ⟨"oid", 1, [0, 1, 2]⟩], nReal := 2 }
+
+/-- `add_particles`: one more Local particle, value 7 in every component of
+every other property -/
+def histAddCol (c : Col) : Col :=
+  { c with data := c.data ++ List.replicate c.stride (if c.name == "tag" then 0 else 7) }
+
+def histAdd (pa : PA) : PA := { pa with props := pa.props.map histAddCol }
+
+def histEvents : List Event :=
+  [.reorder [2, 0, 1], .edit (addProp "V" 2 [0, 1, 20, 21, 10, 11]), .reorder [1, 0, 2],
+   .edit histAdd, .reorder [3, 2, 1, 0]]
+
+-- a non-trivial admissible history: a strided property is added after the first
+-- re-order, a particle after the second
+example : histPA.wf = true ∧ Admissible histPA histEvents := by
+  refine ⟨by decide, by decide, by decide, by decide, by decide, by decide, trivial⟩
+
+example : runEvents histPA histEvents =
+    { props := [⟨"tag", 1, [0, 0, 0, 2]⟩, ⟨"oid", 1, [7, 2, 0, 1]⟩,
+                ⟨"V", 2, [7, 7, 0, 1, 20, 21, 10, 11]⟩], nReal := 3 } := by decide
+
+/-- **seed shape B2** in the model: gathering only a property list remembered
+from construction time tears a later property off its particle. -/
+theorem stale_property_list_counterexample :
+    ¬ ∀ (cached : List String) (idx : List Nat) (pa : PA), pa.wf = true → idx ~ range pa.n →
+        (spatiallyOrderCached cached idx pa).particles ~ pa.particles := by
+  intro h
+  have := h ["tag", "oid"] [1, 0]
+    { props := [⟨"tag", 1, [0, 0]⟩, ⟨"oid", 1, [0, 1]⟩, ⟨"T", 1, [10, 20]⟩], nReal := 2 }
+    (by decide) (by decide)
+  revert this
+  decide
+
+/-- **seed shape A2** in the model: an index list made for the particle count
+`n₀` of construction time is not a permutation of the slots of an array that
+has `n ≠ n₀` particles now — whatever the keys. -/
+theorem stale_particle_count_counterexample (key : Nat → Nat) (n₀ n : Nat) (hne : n₀ ≠ n) :
+    ¬ (sortOrder key n₀ ~ range n) := by
+  intro h
+  have h1 := (sortOrder_perm key n₀).length_eq
+  have h2 := h.length_eq
+  simp only [length_range] at h1 h2
+  omega
 
 /-! ## neighbour queries after the following update
 
